@@ -84,6 +84,7 @@ class State(object):
     self._solver = None
     self._solver_n = 0
     self.bitdecomp = {}   # term id -> (term, [bit terms little endian, each 0/1 int or z3 Int in {0,1}])
+    self.has_quant = False
 
   def copy(self):
     s = State.__new__(State)
@@ -100,6 +101,7 @@ class State(object):
     s._solver = None
     s._solver_n = 0
     s.bitdecomp = dict(self.bitdecomp)
+    s.has_quant = self.has_quant
     s._model = getattr(self, "_model", None)
     s._model_n = getattr(self, "_model_n", 0)
     return s
@@ -124,6 +126,37 @@ class State(object):
       return None
     ent = self.bitdecomp.get(v.get_id())
     return ent[1] if ent is not None else None
+
+  def demand_bits(self, v):
+    """bit list of a value that has a base-256 decomposition: fresh Boolean bits per symbolic byte, on demand"""
+    got = self.bits_of(v)
+    if got is not None or not is_symint(v):
+      return got
+    ent = self.decomp.get(v.get_id())
+    if ent is None:
+      if v.get_id() in self.ranged:
+        bytes_le = [v]
+      else:
+        return None
+    else:
+      bytes_le = ent[1]
+    if len(bytes_le) > 8:
+      return None
+    bits = []
+    for b in bytes_le:
+      bb = self.bits_of(b)
+      if bb is None:
+        xs = [fresh_bool("bit") for _ in range(8)]
+        bb = [z3.If(x, z3.IntVal(1), z3.IntVal(0)) for x in xs]
+        tot = z3.IntVal(0)
+        for j, t in enumerate(bb):
+          tot = tot + t * (1 << j)
+        self.pc.append(zint(b) == tot)
+        if is_sym(b):
+          self.register_bits(b, bb)
+      bits.extend(list(bb) + [0] * (8 - len(bb)))
+    self.register_bits(v, bits)
+    return bits
 
   def compose_bits(self, bits):
     """term for a bit list (registered), or int when all bits are concrete"""
@@ -176,7 +209,8 @@ class State(object):
     if not assume_range:
       if (tid, n) in self.norange:
         return None
-      if not self.entails(z3.And(term >= 0, term < 256 ** n), "byte-range", timeout_ms=500):
+      if not self.entails(z3.And(term >= 0, term < 256 ** n), "byte-range",
+                          timeout_ms=(500 if self.has_quant else None)):
         self.norange.add((tid, n))
         return None
     bs = [fresh_int("d") for _ in range(n)]
@@ -205,6 +239,15 @@ class State(object):
       return
     if is_sym(fact) and z3.is_true(fact):
       return
+    if is_sym(fact) and not self.has_quant:
+      stack = [(fact, 0)]
+      while stack:
+        e, d = stack.pop()
+        if z3.is_quantifier(e):
+          self.has_quant = True
+          break
+        if d < 3:
+          stack.extend((c, d + 1) for c in e.children())
     self.pc.append(fact if is_sym(fact) else z3.BoolVal(bool(fact)))
 
   def add_range_fact(self, t):
